@@ -148,6 +148,8 @@ class AddressMixin:
         """Assumes rectangular only"""
         if not is_address(other):
             other = AddressRange.create(other)
+            if other in ERROR_CODES:
+                return other
         if self.sheet and other.sheet and self.sheet != other.sheet:
             return VALUE_ERROR
 
